@@ -11,7 +11,9 @@ Model/Similarity.lean — property C05.  Executable model of the comparison func
 * `count_common`, `intersection_size`, `jaccard`, `angular_similarity` (vector: index walk with the
   unchecked accesses modelled by `[i]?`; tree: map look-ups), `similarity` with its downsample path,
 * the `Comparable` impls (`similarity = mh.similarity(omh, true, false).unwrap()`,
-  `containment = count_common / size`).
+  `containment = count_common / size`),
+* the C API exports over these (`ffi/minhash.rs`): pass-through except
+  `kmerminhash_intersection_union_size`, which swallows every error into `(0, 0)`.
 
 A sketch is its parameter block plus `mins` (strictly increasing) and an optional abundance list
 aligned with `mins` (vector: the two `Vec`s; tree: the `BTreeSet` in iteration order and the values
@@ -278,6 +280,20 @@ def countCommon (a b : Sketch) (downsample : Bool) : Except Err Nat :=
 def containmentPair (a b : Sketch) : Except Err (Nat × Nat) := do
   let c ← countCommon a b false
   .ok (c, a.size)
+
+/-! ## the C API (`src/core/src/ffi/minhash.rs`)
+
+`kmerminhash_jaccard`, `kmerminhash_angular_similarity`, `kmerminhash_similarity` and
+`kmerminhash_count_common` hand their two `KmerMinHash` handles to the method of the same name and
+pass the `Result` on (the landing pad turns `Err` into the thread-local error code), so their model is
+`jaccardCore .vec`, `angularCore .vec`, `similarityCore .vec`, `countCommon`.  One export differs: -/
+
+/-- `kmerminhash_intersection_union_size`: `(common, *union_size)`; every error of
+    `intersection_size` — an incompatibility included — is swallowed into `(0, 0)` -/
+def ffiIntersectionUnionSize (a b : Sketch) : Nat × Nat :=
+  match intersectionSize .vec a b with
+  | .ok p => p
+  | .error _ => (0, 0)
 
 /-! ## float tails, written once -/
 
